@@ -102,7 +102,7 @@ func init() {
 		Build: func(w *World) {
 			d := &c16Data{}
 			w.scData = d
-			taus := []time.Duration{100 * time.Millisecond, 500 * time.Millisecond, time.Second, 2 * time.Second, 2100 * time.Millisecond, 4 * time.Second, 10 * time.Second, 60 * time.Second}
+			taus := []time.Duration{100 * time.Millisecond, 150 * time.Millisecond, 250 * time.Millisecond, 1250 * time.Millisecond, 500 * time.Millisecond, time.Second, 2 * time.Second, 2100 * time.Millisecond, 4 * time.Second, 10 * time.Second, 60 * time.Second}
 			d.tau = taus[w.T.Choose(len(taus), "timeout")]
 			pr := &Proto{W: w}
 			d.pr = pr
@@ -287,6 +287,25 @@ func init() {
 					spans = append(spans, span{o.tRet, to})
 				}
 			}
+			// the bound is what the refreshes themselves announce as their timeout (read with the
+			// harness's own reading of xs:duration); a configured timeout that the announcement cannot
+			// express exactly (150 ms is announced as PT0.1S) does not widen it (seed C16-g)
+			bound := d.tau
+			for _, r := range d.ref {
+				a, ok := parseXSDuration(r.timeout)
+				if !ok {
+					w.Violate("C16/announced-timeout-unreadable", "a refresh announces the timeout %q", r.timeout)
+					return
+				}
+				if a > d.tau {
+					w.Violate("C16/announced-timeout-exceeds-configured", "a refresh announces the timeout %q, configured %v", r.timeout, d.tau)
+					return
+				}
+				if a < bound {
+					bound = a
+					w.Probe("c16-announced-timeout-below-configured")
+				}
+			}
 			for _, s := range spans {
 				if s.to-s.from <= d.tau || stalled {
 					continue
@@ -297,13 +316,13 @@ func init() {
 					if r.at < s.from || r.at > s.to {
 						continue
 					}
-					if r.at-prev > d.tau+time.Millisecond {
-						w.Violate("C16/heartbeat-gap-exceeds-timeout", "running with timeout %v: no refresh between +%v and +%v", d.tau, prev, r.at)
+					if r.at-prev > bound+time.Millisecond {
+						w.Violate("C16/heartbeat-gap-exceeds-timeout", "running with timeout %v (announced %v): no refresh between +%v and +%v", d.tau, bound, prev, r.at)
 					}
 					prev = r.at
 				}
-				if s.to-prev > d.tau+time.Millisecond {
-					w.Violate("C16/heartbeat-gap-exceeds-timeout", "running with timeout %v: no refresh between +%v and +%v", d.tau, prev, s.to)
+				if s.to-prev > bound+time.Millisecond {
+					w.Violate("C16/heartbeat-gap-exceeds-timeout", "running with timeout %v (announced %v): no refresh between +%v and +%v", d.tau, bound, prev, s.to)
 				}
 			}
 			// (d) never two streams: in any window of one period at most 2 refreshes can leave
@@ -367,4 +386,32 @@ func init() {
 			w.State(fmt.Sprint(len(d.ops), len(d.ref), final, live))
 		},
 	})
+}
+
+// parseXSDuration reads the subset of xs:duration a heartbeat timeout uses: PT[nH][nM][n[.f]S].
+//
+//go:norace
+func parseXSDuration(x string) (time.Duration, bool) {
+	if len(x) < 3 || x[0] != 'P' || x[1] != 'T' {
+		return 0, false
+	}
+	var total time.Duration
+	num := ""
+	for _, c := range x[2:] {
+		switch {
+		case (c >= '0' && c <= '9') || c == '.':
+			num += string(c)
+		case c == 'H' || c == 'M' || c == 'S':
+			var v float64
+			if _, err := fmt.Sscanf(num, "%g", &v); err != nil {
+				return 0, false
+			}
+			unit := map[rune]time.Duration{'H': time.Hour, 'M': time.Minute, 'S': time.Second}[c]
+			total += time.Duration(v*1e6+0.5) * (unit / 1e6)
+			num = ""
+		default:
+			return 0, false
+		}
+	}
+	return total, num == ""
 }
